@@ -243,6 +243,11 @@ const VAL_POLICIES: &[&str] = &[
     r#"permit(principal is Org::Plain, action, resource is Org::Kind);"#,
     r#"permit(principal, action == Org::Action::"nosuch", resource) when { resource.nope };"#,
     r#"permit(principal, action in [Org::Action::"base"], resource is Top in Org::Team::"t0") when { principal.kind.x || principal.peers.y || context.z };"#,
+    // `==` against an ancestor type of an applicable type, in the resource clause only, the principal clause only, and both
+    r#"permit(principal, action == Action::"top", resource == Org::Team::"t0");"#,
+    r#"permit(principal == Org::Team::"t0", action == Action::"top", resource);"#,
+    r#"permit(principal == Org::Team::"t0", action == Action::"top", resource == Org::Team::"t1");"#,
+    r#"permit(principal == Org::Person::"ann", action == Org::Action::"write all", resource == Org::Team::"t0") when { resource.lead.addr.geo.lat.greaterThan(decimal("1.0")) && principal.boss.boss.boss.addr.zip == context.nope };"#,
 ];
 
 /// a second synthetic bundle: record-typed and set-typed tags, entities that do and do not fit them
@@ -419,8 +424,22 @@ pub fn pools() -> &'static Pools {
         }
         // protobuf encodings produced by cedar itself from the parsed seeds, and FFI envelopes
         let mut extra = vec![];
+        // Deriving documents runs cedar code in this process. A crash that cannot be caught (stack
+        // overflow, abort) is found by the preflight child (main.rs), which names the seed in
+        // VERIF_POOL_SKIP; such a seed stays underived, and the cases built on it report the crash.
+        let skip: Vec<String> = std::env::var("VERIF_POOL_SKIP").map(|v| v.split(',').map(|x| x.to_string()).collect()).unwrap_or_default();
+        let progress = std::env::var("VERIF_POOL_PROGRESS").ok();
+        let note = |name: &str| {
+            if let Some(f) = &progress {
+                let _ = std::fs::write(f, name);
+            }
+        };
         for s in &seeds {
             let Ok(text) = std::str::from_utf8(&s.bytes) else { continue };
+            if skip.iter().any(|k| k == &s.name) {
+                continue;
+            }
+            note(&s.name);
             // deeply nested documents are only ever handed to cedar inside a case (under the watchdog)
             if s.name.starts_with("gen_nested") || s.name.starts_with("gen_like_stars") || s.name.starts_with("gen_long_ident") {
                 continue;
@@ -506,6 +525,12 @@ pub fn pools() -> &'static Pools {
         // exhaustive part of the quick tier: every truncation point and every single-bit flip in
         // the first 64 bytes, for every seed of at most 2 KiB, through its native entry point
         let mut exhaustive = vec![];
+        // every seed as it is (no fault), through each of its native entry points
+        for (i, s) in seeds.iter().enumerate() {
+            for e in 0..native_entries(s.kind).len() {
+                exhaustive.push((i as u32, 7u8, e as u32));
+            }
+        }
         for (i, s) in seeds.iter().enumerate() {
             if s.bytes.len() <= 2048 {
                 for k in 0..s.bytes.len() {
@@ -569,6 +594,11 @@ pub fn pools() -> &'static Pools {
         let mut bundles = std::collections::BTreeMap::new();
         let keys: std::collections::BTreeSet<String> = seeds.iter().filter(|s| s.name.starts_with("cli__")).map(|s| bundle_key(&s.name)).collect();
         for key in keys {
+            let pname = format!("bundle:{key}");
+            if skip.iter().any(|k| k == &pname) {
+                continue;
+            }
+            note(&pname);
             let built = std::panic::catch_unwind(std::panic::AssertUnwindSafe(|| {
                 let text_of = |suffix: &str| seeds.iter().find(|s| bundle_key(&s.name) == key && s.name.ends_with(suffix)).and_then(|s| String::from_utf8(s.bytes.clone()).ok());
                 let schema = text_of("schema.cedarschema").and_then(|t| Schema::from_cedarschema_str(&t).ok().map(|x| x.0));
@@ -633,6 +663,7 @@ pub fn pools() -> &'static Pools {
                 bundles.insert(key, b);
             }
         }
+        note("");
         let exhaustive_quick: Vec<(u32, u8, u32)> = exhaustive
             .iter()
             .copied()
@@ -1793,6 +1824,10 @@ impl World for StorageFaults {
             let (si, kind, pos) = exhaustive[index as usize];
             let s = &p.seeds[si as usize];
             let mut b = s.bytes.clone();
+            if kind == 7 {
+                let entries = native_entries(s.kind);
+                return Case { hash_seed: hs.next(), entry: entries[pos as usize % entries.len()].to_string(), seed_name: s.name.clone(), bytes_hex: hex(&b), faults: vec![], stack_mib, reader, line_width, indent, schema, time_limit_s: None };
+            }
             let fault = match kind {
                 0 => {
                     b.truncate(pos as usize);
